@@ -308,10 +308,23 @@ class UserCodePolicy(DefaultPolicy):
         self.subscripts_raise = False
         self.asserts_raise = False
 
+    def _params(self):
+        a = self.func.node.args
+        return {x.arg for x in a.posonlyargs + a.args + a.kwonlyargs}
+
+    def _formats_parameter(self, args):
+        """string formatting of a bare parameter of the enclosing function runs the __repr__ / __str__ / __format__ of a caller-supplied object"""
+        ps = self._params()
+        return any(isinstance(a, ast.Name) and a.id in ps for a in args)
+
     def call_raises(self, call, node):
         r = self.resolver.resolve_call(self.func, call)
         if r[0] == 'builtin' and r[1] in USERCODE_BUILTINS:
             if any(not isinstance(a, ast.Constant) for a in call.args):
+                return {E, NONEXC}
+            return set()
+        if isinstance(call.func, ast.Attribute) and call.func.attr == 'format' and isinstance(call.func.value, ast.Constant) and isinstance(call.func.value.value, str):
+            if self._formats_parameter(list(call.args) + [k.value for k in call.keywords]):
                 return {E, NONEXC}
             return set()
         if r[0] == 'ext' and r[1] in USERCODE_EXT:
@@ -330,6 +343,13 @@ class UserCodePolicy(DefaultPolicy):
         for sub in _walk_no_nested(expr):
             if isinstance(sub, ast.Call):
                 toks |= self.call_raises(sub, node)
+            elif isinstance(sub, ast.JoinedStr):
+                if self._formats_parameter([v.value for v in sub.values if isinstance(v, ast.FormattedValue)]):
+                    toks |= {E, NONEXC}
+            elif isinstance(sub, ast.BinOp) and isinstance(sub.op, ast.Mod) and isinstance(sub.left, ast.Constant) and isinstance(sub.left.value, str):
+                args = sub.right.elts if isinstance(sub.right, ast.Tuple) else [sub.right]
+                if self._formats_parameter(args):
+                    toks |= {E, NONEXC}
         return toks
 
     def for_raises(self, forstmt, node):
